@@ -7,3 +7,86 @@ pub(crate) mod store;
 pub mod service;
 
 pub use service::{IndexerHandle, IndexerService};
+
+#[cfg(feature = "verif-hooks")]
+pub use crate::indexer::{CellType, Key, KeyPrefix, Value, extract_raw_data};
+
+/// verif-hooks: read-only / pass-through access to the crate-private `Indexer` over a
+/// `RocksdbStore` (the types themselves are `pub(crate)` and cannot be re-exported).
+#[cfg(feature = "verif-hooks")]
+pub mod verif {
+    use crate::indexer::{Indexer, KeyPrefix};
+    use crate::service::IndexerHandle;
+    use crate::store::{IteratorDirection, RocksdbStore, Store};
+    use ckb_indexer_sync::{CustomFilters, Error, IndexerSync};
+    use ckb_types::{
+        core::{BlockNumber, BlockView},
+        packed::{Byte32, OutPoint, Script},
+    };
+    use std::path::Path;
+
+    /// The real `Indexer<RocksdbStore>` (no pool overlay, no custom filters).
+    pub struct VerifIndexer {
+        indexer: Indexer<RocksdbStore>,
+        store: RocksdbStore,
+    }
+
+    impl VerifIndexer {
+        /// Open a store at `path` and wrap it exactly like `IndexerService::get_indexer` does.
+        pub fn open<P: AsRef<Path>>(path: P, keep_num: u64, prune_interval: u64) -> Self {
+            let store = RocksdbStore::new(&RocksdbStore::default_options(), path);
+            let indexer = Indexer::new(
+                store.clone(),
+                keep_num,
+                prune_interval,
+                None,
+                CustomFilters::new(None, None),
+            );
+            Self { indexer, store }
+        }
+        /// `IndexerSync::append`
+        pub fn append(&self, block: &BlockView) -> Result<(), Error> {
+            self.indexer.append(block)
+        }
+        /// `IndexerSync::rollback`
+        pub fn rollback(&self) -> Result<(), Error> {
+            self.indexer.rollback()
+        }
+        /// `IndexerSync::tip`
+        pub fn tip(&self) -> Result<Option<(BlockNumber, Byte32)>, Error> {
+            self.indexer.tip()
+        }
+        /// `Indexer::prune`
+        pub fn prune(&self) -> Result<(), Error> {
+            self.indexer.prune()
+        }
+        /// `Indexer::get_live_cells_by_script`
+        pub fn live_cells_by_script(
+            &self,
+            script: &Script,
+            prefix: KeyPrefix,
+        ) -> Result<Vec<OutPoint>, Error> {
+            self.indexer.get_live_cells_by_script(script, prefix)
+        }
+        /// `Indexer::get_transactions_by_script`
+        pub fn transactions_by_script(
+            &self,
+            script: &Script,
+            prefix: KeyPrefix,
+        ) -> Result<Vec<Byte32>, Error> {
+            self.indexer.get_transactions_by_script(script, prefix)
+        }
+        /// Every stored row in key order.
+        pub fn dump(&self) -> Vec<(Vec<u8>, Vec<u8>)> {
+            self.store
+                .iter([], IteratorDirection::Forward)
+                .expect("iter")
+                .map(|(k, v)| (k.to_vec(), v.to_vec()))
+                .collect()
+        }
+        /// The RPC handle over the same store (no pool overlay).
+        pub fn handle(&self, request_limit: usize) -> IndexerHandle {
+            IndexerHandle::verif_new(self.store.clone(), request_limit)
+        }
+    }
+}
